@@ -47,6 +47,13 @@ FIXED_SCRIPTS = [
     b'require ["vacation"]; vacation :seconds 5 "x";',
     b'keep;',
     b'',
+    # capability strings that are not extensions of the command table (RFC 5228 2.7.3 comparators, unknown names)
+    b'require "comparator-i;ascii-numeric"; if header :comparator "i;ascii-numeric" "a" "1" { keep; }',
+    b'if header :comparator "i;ascii-numeric" "a" "1" { keep; }',
+    b'require ["comparator-i;octet", "comparator-i;ascii-casemap", "comparator-i;unicode-casemap"]; if address :comparator "i;unicode-casemap" "from" "x" { keep; }',
+    b'if address :comparator "i;unicode-casemap" "from" "x" { keep; }',
+    b'require ["encoded-character", "editheader", "foo"]; keep;',
+    b'if envelope :comparator "i;octet" "from" "x" { keep; }',
 ]
 
 DEFS = [
